@@ -18,7 +18,8 @@ import (
 	"verif/rt/vrt"
 )
 
-var Clients = []string{"203.0.113.5:4000", "203.0.113.5:4001", "203.0.113.9:4000", "[2001:db8:1::7]:4000"}
+// Clients 4 and 5 are the same link-local address and port on two interfaces (zones): two clients.
+var Clients = []string{"203.0.113.5:4000", "203.0.113.5:4001", "203.0.113.9:4000", "[2001:db8:1::7]:4000", "[fe80::7%eth0]:4000", "[fe80::7%eth1]:4000"}
 
 // Targets: index 0 and 3 are DNS ports; index 6 is NOT a DNS port although it ends in "53".
 var Targets = []string{"93.184.216.34:53", "93.184.216.34:80", "[2606:2800:220:1:248:1893:25c8:1946]:443", "93.184.216.40:53", "[fe80::1%eth0]:53", "[fe80::1234:5678:9abc:def0%a-very-long-zone-name]:8080", "93.184.216.34:8053"}
@@ -90,6 +91,7 @@ type Config struct {
 	Listeners  int                 // UDP listeners of the service, all served by the same handler (default 1)
 	SlowRemove time.Duration       // every removal report takes this long (virtual time)
 	ViaManager bool                // the handler reads from a listener-manager handle (shared socket), as in the server
+	AutoReply  []int               // targets (by index) that answer every datagram at once by themselves (a thread of their own)
 }
 
 func DefaultKeys() []*world.Key {
@@ -153,6 +155,22 @@ func Run(cfg Config, ops []Op, tr *Trace) {
 		w.Sock(s)
 	}
 	natSock := map[int]*vnet.UDPConn{}
+	var autoRecv []Recv
+	for _, ti := range cfg.AutoReply {
+		ti := ti
+		sock := w.Sock(Targets[ti])
+		vrt.SpawnDaemon(fmt.Sprintf("auto-target-%d", ti), func() {
+			buf := make([]byte, 65536)
+			for {
+				n, from, err := sock.ReadFromUDP(buf)
+				if err != nil {
+					return
+				}
+				autoRecv = append(autoRecv, Recv{Who: ti, Data: append([]byte{}, buf[:n]...), From: from.String(), FromUDP: from})
+				sock.WriteTo(append([]byte("auto-answer:"), buf[:n]...), from)
+			}
+		})
+	}
 	knownSocks := map[*vnet.UDPConn]bool{}
 	for _, u := range vw.UDPSockets() {
 		knownSocks[u] = true
@@ -162,6 +180,8 @@ func Run(cfg Config, ops []Op, tr *Trace) {
 	mIdx, eIdx := 0, 0
 	observe := func(st *Step, c int) {
 		vrt.WaitIdle()
+		st.TargetRecv = append(st.TargetRecv, autoRecv...)
+		autoRecv = nil
 		for i, t := range Targets {
 			for _, d := range w.Sock(t).Drain() {
 				st.TargetRecv = append(st.TargetRecv, Recv{Who: i, Data: d.Data, From: d.From.String(), FromUDP: d.From})
